@@ -29,12 +29,14 @@ struct Sc {
   bool S(const char* name, int rc, const std::string& out = "") {
     Hash64 h; h.add(out);
     steps.push_back({name, yr_error_name(rc), h.h, g_alloc.failed > f0, 'S'});
+    if (getenv("SIM_DEBUG_STEPS")) fprintf(stderr, "step %s rc=%s faulted=%d attempts=%lld\n", name, yr_error_name(rc), (int) (g_alloc.failed > f0), (long long) g_alloc.attempts);
     return rc == ERROR_SUCCESS;
   }
   // compile API: error count
   bool C(const char* name, int errors) {
     std::string rc = errors == 0 ? "0" : (comp_cb_errors > 0 ? "errors" : "errors-undiagnosed");
     steps.push_back({name, rc, 0, g_alloc.failed > f0, 'C'});
+    if (getenv("SIM_DEBUG_STEPS")) fprintf(stderr, "step %s errors=%d (%s) faulted=%d attempts=%lld msgs=%s\n", name, errors, rc.c_str(), (int) (g_alloc.failed > f0), (long long) g_alloc.attempts, comp_msgs.substr(0, 200).c_str());
     return errors == 0;
   }
   void finish() {
@@ -103,11 +105,19 @@ static const char* DEX_S = "../oss-fuzz/dex_fuzzer_corpus/b1203d95c56f02e7e6dbea
 typedef void (*ScenFn)(Sc&);
 struct Scenario { const char* name; ScenFn fn; };
 
-// a compilation that "succeeds" around a failed allocation must have produced the same rules: their serialised image
-// (a pure function of the rules, C08) is part of the step outputs compared with the fault-free run
-static void compile_only(Sc& s, const std::string& src) {
+// A compilation that "succeeds" around a failed allocation must have produced rules that work - also after a round trip
+// through their serialised form, where a pointer that was never registered as relocatable shows.  The comparison is
+// behavioural (traces of the original and of the loaded copy against the fault-free run), not byte-wise: yara may
+// legitimately fall back to a slower representation when an optional allocation fails (a literal kept as a regexp).
+static void compile_only(Sc& s, const std::string& src, const std::string& buf = "") {
   s.arm(); if (!sc_init(s)) return; YR_RULES* r = sc_compile(s, src); if (!r) return;
-  MemStream ms; YR_STREAM st = ms.stream(); STO(s, "yr_rules_save_stream", yr_rules_save_stream(r, &st), ms.data);
+  if (!sc_scan_mem(s, r, buf)) return;
+  MemStream ms; YR_STREAM st = ms.stream();
+  if (!ST(s, "yr_rules_save_stream", yr_rules_save_stream(r, &st))) return;
+  YR_RULES* l = NULL; ms.pos = 0;
+  if (!ST(s, "yr_rules_load_stream", yr_rules_load_stream(&st, &l))) return;
+  s.rules.push_back(l);
+  sc_scan_mem(s, l, buf, "scan_loaded");
 }
 static void scan_only(Sc& s, const std::string& src, const std::string& buf) {
   if (!sc_init(s)) return; YR_RULES* r = sc_compile(s, src); if (!r) return;
@@ -115,14 +125,14 @@ static void scan_only(Sc& s, const std::string& src, const std::string& buf) {
 }
 
 static void s_init_fini(Sc& s) { s.arm(); sc_init(s); }
-static void s_compile_strings(Sc& s) { compile_only(s, frags_src(STR_FRAGS)); }
-static void s_compile_regex(Sc& s) { compile_only(s, frags_src(RE_FRAGS)); }
-static void s_compile_cond(Sc& s) { compile_only(s, frags_src(COND_FRAGS)); }
+static void s_compile_strings(Sc& s) { compile_only(s, frags_src(STR_FRAGS), "HEAD " + frags_plants(STR_FRAGS)); }
+static void s_compile_regex(Sc& s) { compile_only(s, frags_src(RE_FRAGS), "HEAD " + frags_plants(RE_FRAGS)); }
+static void s_compile_cond(Sc& s) { compile_only(s, frags_src(COND_FRAGS), "HEAD " + frags_plants(COND_FRAGS)); }
 // the same compilations with arena buffers that start at 64 bytes: every few writes into a section grow it, so the
 // growth reallocs of all twelve sections (and every caller that must notice their failure) become fault sites
-static void s_compile_strings_tiny(Sc& s) { g_arena_initial_size = 64; compile_only(s, frags_src(STR_FRAGS)); g_arena_initial_size = 0; }
-static void s_compile_regex_tiny(Sc& s) { g_arena_initial_size = 64; compile_only(s, frags_src(RE_FRAGS)); g_arena_initial_size = 0; }
-static void s_compile_cond_tiny(Sc& s) { g_arena_initial_size = 64; compile_only(s, frags_src(COND_FRAGS)); g_arena_initial_size = 0; }
+static void s_compile_strings_tiny(Sc& s) { g_arena_initial_size = 64; compile_only(s, frags_src(STR_FRAGS), "HEAD " + frags_plants(STR_FRAGS)); g_arena_initial_size = 0; }
+static void s_compile_regex_tiny(Sc& s) { g_arena_initial_size = 64; compile_only(s, frags_src(RE_FRAGS), "HEAD " + frags_plants(RE_FRAGS)); g_arena_initial_size = 0; }
+static void s_compile_cond_tiny(Sc& s) { g_arena_initial_size = 64; compile_only(s, frags_src(COND_FRAGS), "HEAD " + frags_plants(COND_FRAGS)); g_arena_initial_size = 0; }
 static void s_compile_pe(Sc& s) { compile_only(s, frags_src({"pe", "pefunc", "pesig", "perich"})); }
 static void s_compile_elf(Sc& s) { compile_only(s, frags_src({"elf", "elfsec"})); }
 static void s_compile_dotnet(Sc& s) { compile_only(s, frags_src({"dotnet"})); }
